@@ -46,6 +46,9 @@ class _Return(Exception):
         self.value = value
 
 
+import sys as _sys
+
+
 class Population:
     def __init__(self, descs):
         self.devs = {d['label']: d for d in descs}
@@ -281,7 +284,7 @@ class Ref:
         if rt is None:
             raise Undecidable('call of a routine not yet defined: ' + name)
         params, body = rt
-        if len(self.scopes) > 60:
+        if len(self.scopes) > 700:
             raise Undecidable('recursion too deep')
         self.scopes.append({'params': dict(zip(params, args)), 'locals': {}})
         self.where.append('call ' + name)
@@ -907,9 +910,16 @@ def check(prog, population, decisions, actual, spec_table=None, hoist=False):
     ref = Ref(prog, population, decisions, actual, spec_table=spec_table)
     if hoist:
         ref.hoist_routines(prog)
+    # the reference interpreter recurses where the VM iterates: it gets the
+    # head-room for scripts that recurse a few hundred calls deep, and only
+    # while it runs (the repository's own code keeps the default limit)
+    limit = _sys.getrecursionlimit()
+    _sys.setrecursionlimit(max(limit, 40000))
     try:
         ref.run()
     except Mismatch as ex:
         ex.ref = ref
         raise
+    finally:
+        _sys.setrecursionlimit(limit)
     return ref
